@@ -20,15 +20,19 @@
 (*     vanishes only by Remove of its key or by the outermost Thaw; insert is refused only *)
 (*     when the logged counters say full, and an accepted insert leaves a NULL slot.       *)
 (*     Moreover the dump is consistent (each live key exactly once, counters = numbers of  *)
-(*     glyph / tombstone slots, a NULL slot exists, mru = live keys), n_tombstones moves   *)
-(*     only as removes/inserts/evictions allow, and Thaw follows the water-mark rule on    *)
-(*     the logged counters of the pre-state: nothing happens unless freeze 1 -> 0 and      *)
-(*     n_glyphs + n_tombstones > HIGH; then everything goes if n_tombstones > HIGH, else   *)
-(*     exactly the least recently used go until LOW remain.  Drawing a glyph (any of the   *)
-(*     four modes) makes it most recently used; modes 0 show the copy made at insert time, *)
+(*     glyph / tombstone slots, a NULL slot exists, mru = live keys).  A lookup (and the   *)
+(*     lookups a drawing call needs) leaves map and LRU order alone but may reorganise the *)
+(*     table; dead positions never exceed dub, the number of entries removed or evicted    *)
+(*     since the execution began (an upper bound under ANY table organisation).  Thaw is   *)
+(*     judged as the statement puts it: nothing may vanish except at freeze 1 -> 0; there  *)
+(*     not evicting is fine when live <= HIGH, evicting -- least recently used first down  *)
+(*     to LOW, or everything -- is fine when the cache COULD be above its high-water mark, *)
+(*     live + dub > HIGH; where both hold both are accepted.  Drawing a glyph (any of the  *)
+(*     four modes) makes it most recently used; mode 0 shows the copy made at insert time, *)
 (*     modes 2/3 draw nothing.                                                             *)
 (* (B) tracked, not mandatory: the exact layout model of GlyphCache.tla (home slot = real  *)
-(*     hash, upward linear probing, first NULL-or-tombstone, backwards tombstone sweep).   *)
+(*     hash, upward linear probing, first NULL-or-tombstone, backwards tombstone sweep,    *)
+(*     lookups that change nothing, thaw decided by n_glyphs + n_tombstones as logged).    *)
 (*     exact stays TRUE while every logged state is the one GlyphCache's action yields;    *)
 (*     when it first fails a VF:policy note is printed and validation continues with (A)   *)
 (*     alone -- another probing order or table organisation is not a violation of C17.     *)
@@ -36,7 +40,7 @@
 (* ends) is explained by no action.                                                        *)
 EXTENDS GlyphCache, TraceIO
 
-VARIABLES l, exact
+VARIABLES l, exact, dub
 
 KeysEv == TraceLog[2]
 TKeys  == 1..KeysEv.n
@@ -47,7 +51,7 @@ TLow   == KeysEv.LOW
 TNoVal == [o |-> <<>>, pix |-> <<>>, hd |-> 0]
 TVals  == {}
 
-tvars == <<slot, ng, nt, freeze, mru, val, ret, l, exact>>
+tvars == <<slot, ng, nt, freeze, mru, val, ret, l, exact, dub>>
 
 ObsSlots(ev) == [i \in Slots |-> ev.slots[i + 1]]
 
@@ -60,13 +64,18 @@ Observe(ev) ==
 
 (* (A) consistency of the logged state -- nothing here depends on Hash or on a probing order *)
 DumpOK == /\ CountsMatch /\ NoDuplicate /\ NullExists /\ MruMatches /\ ValMatches
-          /\ WaterMarks /\ NotStuck
           /\ Abs!ALruIsLive /\ Abs!AFreeExists
+          /\ nt <= dub
+
+(* dub after `gone` more entries were removed or evicted; never more than the table can hold beside the live ones *)
+Cap(n) == IF n > H - 1 - ng' THEN H - 1 - ng' ELSE n
+Dub(gone) == dub' = Cap(dub + gone)
 
 (* (B) bookkeeping: ex = "the layout model explains this step" *)
 Track(ex) ==
     /\ exact' = (exact /\ ex)
-    /\ (exact /\ ~ex) => PrintT(<<"VF:policy", "glyph table layout departs from the linear-probing model of GlyphCache.tla, first at event", l>>)
+    /\ (exact /\ ~ex) => PrintT(<<"VF:policy", "layout", l>>)   \* (short: TLC wraps long tuples)
+    \* "layout": the glyph table layout departs from the linear-probing model of GlyphCache.tla, first at event l
 
 Ev(name) == l <= TraceLen /\ TraceLog[l].e = name
 
@@ -74,13 +83,13 @@ TReset ==
     /\ Ev("Reset")
     /\ slot' = [i \in Slots |-> NULLV] /\ ng' = 0 /\ nt' = 0 /\ freeze' = 0 /\ mru' = <<>>
     /\ val' = [k \in Keys |-> NoVal] /\ ret' = Void
-    /\ exact' = TRUE
+    /\ exact' = TRUE /\ dub' = 0
     /\ l' = l + 1
 
 TKeysEv ==
     /\ Ev("Keys")
     /\ TraceLog[l] = KeysEv            \* one key table per trace file: the constants above are the right ones
-    /\ UNCHANGED <<slot, ng, nt, freeze, mru, val, ret, exact>>
+    /\ UNCHANGED <<slot, ng, nt, freeze, mru, val, ret, exact, dub>>
     /\ l' = l + 1
 
 TFreeze ==
@@ -88,24 +97,27 @@ TFreeze ==
     /\ Observe(TraceLog[l])
     /\ val' = val /\ ret' = Void
     /\ Abs!AFreeze                                       \* (A)
+    /\ Dub(0)
     /\ DumpOK'
     /\ Track(exact /\ Freeze)                            \* (B)
     /\ l' = l + 1
 
-(* the water-mark rule, on the logged counters of the pre-state and the abstract LRU order *)
+(* (A) the statement's thaw, judged on the map: what may happen to the LRU list *)
 ThawRule ==
-    IF freeze = 1 /\ ng + nt > HIGH
-    THEN mru' = IF nt > HIGH THEN <<>>
-                ELSE SubSeq(mru, 1, IF Len(mru) < LOW THEN Len(mru) ELSE LOW)
-    ELSE mru' = mru /\ nt' = nt
+    LET n == Len(mru)  keep == IF n < LOW THEN n ELSE LOW IN
+    \/ /\ mru' = mru                                   \* nothing goes: always fine below the outermost thaw,
+       /\ freeze > 1 \/ n <= HIGH                       \* at the outermost one only if not above the mark anyway
+    \/ /\ freeze = 1 /\ n + dub > HIGH                  \* the cache may be above its high-water mark:
+       /\ mru' \in {SubSeq(mru, 1, keep), <<>>}          \* least recently used go, down to LOW, or everything
 
 TThaw ==
     /\ Ev("Thaw")
     /\ Observe(TraceLog[l])
     /\ val' = [k \in Keys |-> IF k \in LiveKeys' THEN val[k] ELSE NoVal]
     /\ ret' = Void
-    /\ Abs!AThaw                                         \* (A) survivors are a most-recently-used prefix ...
-    /\ ThawRule                                          \* ... of exactly the length the water marks prescribe
+    /\ freeze > 0 /\ freeze' = freeze - 1
+    /\ ThawRule                                          \* (A)
+    /\ Dub(Len(mru) - Len(mru'))
     /\ DumpOK'
     /\ Track(exact /\ Thaw)                              \* (B)
     /\ l' = l + 1
@@ -120,6 +132,7 @@ TInsert ==
            /\ Abs!AInsert(ev.k, v)                      \* (A) added (a NULL slot remains) or refused (only when full)
            /\ ev.ret => /\ ev.ro = ev.o                 \* the entry shows the origin and size given
                         /\ ev.hd > 0
+           /\ Dub(0)
            /\ DumpOK'
            /\ Track(exact /\ Insert(ev.k, v))           \* (B)
     /\ l' = l + 1
@@ -133,6 +146,7 @@ TLookup ==
        /\ Abs!ALookup(ev.k)                             \* (A) non-NULL exactly for a live key, nothing changes
        /\ ev.ret => /\ val[ev.k].o = ev.ro              \* the live entry: same origin/size ...
                     /\ val[ev.k].hd = ev.hd             \* ... and the very object insert returned
+       /\ Dub(0)
        /\ DumpOK'
        /\ Track(exact /\ Lookup(ev.k))                  \* (B)
     /\ l' = l + 1
@@ -144,6 +158,7 @@ TRemove ==
        /\ val' = [val EXCEPT ![ev.k] = NoVal]
        /\ ret' = Void
        /\ Abs!ARemove(ev.k)                             \* (A) that entry goes (if present), no other
+       /\ Dub(IF ev.k \in LiveKeys THEN 1 ELSE 0)
        /\ DumpOK'
        /\ Track(exact /\ Remove(ev.k))                  \* (B)
     /\ l' = l + 1
@@ -166,16 +181,17 @@ TUse ==
              /\ (ev.mode \in {2, 3}) => Blank(ev.got[i].pix)         \* outside / clipped away: nothing drawn
        /\ mru' = UseAll(mru, ev.ks)                     \* (A) AUse of each: drawn glyphs become most recently used,
        /\ LiveKeys' = LiveKeys                          \*     whether or not a pixel of them reached the destination
-       /\ ng' = ng /\ nt' = nt /\ freeze' = freeze
+       /\ ng' = ng /\ nt' <= nt /\ freeze' = freeze     \*     (the lookups that fetch the glyphs may tidy the table)
        /\ val' = val
        /\ ret' = Found(val[ev.ks[Len(ev.ks)]])
+       /\ Dub(0)
        /\ DumpOK'
        /\ Track(exact /\ slot' = slot)                  \* (B)
     /\ l' = l + 1
 
 TInit == /\ slot = [i \in Slots |-> NULLV] /\ ng = 0 /\ nt = 0 /\ freeze = 0 /\ mru = <<>>
          /\ val = [k \in Keys |-> NoVal] /\ ret = Void
-         /\ l = 1 /\ exact = TRUE
+         /\ l = 1 /\ exact = TRUE /\ dub = 0
 
 TNext == TReset \/ TKeysEv \/ TFreeze \/ TThaw \/ TInsert \/ TLookup \/ TRemove \/ TUse
 
